@@ -1057,6 +1057,84 @@ pub fn run(sh: &mut Shard) {
         let _ = case_extra;
         check_case_gen(sh, &mode, &f, &text, &p, &trace, seed, extended);
     }
+    if mode == "c01" {
+        budget_cells(sh);
+    }
+}
+
+/// "Each scan cycle terminates ... budget timeout": loops that cannot finish inside a short execution budget (300 ms) and whose
+/// bodies execute nothing, one statement, or another loop.  The cycle runs on its own thread; it must come back - with
+/// ExecutionTimeout, or Ok if it really finished - within 20 s.  A cycle that does not come back cannot be interrupted, so this
+/// part runs last, stops at the first hang and leaves the stuck thread to die with the process.
+fn budget_cells(sh: &mut Shard) {
+    let loops: Vec<(&str, String)> = vec![
+        ("for-empty-body", "FOR i := LINT#0 TO LINT#9000000000000000000 DO\nEND_FOR;".into()),
+        ("for-only-empty-statements", "FOR i := LINT#0 TO LINT#9000000000000000000 DO\n;;\nEND_FOR;".into()),
+        ("for-one-statement", "FOR i := LINT#0 TO LINT#9000000000000000000 DO\n n := i;\nEND_FOR;".into()),
+        ("for-descending-empty-body", "FOR i := LINT#9000000000000000000 TO LINT#0 BY LINT#-1 DO\nEND_FOR;".into()),
+        ("for-nested-empty", "FOR i := LINT#0 TO LINT#3000000000 DO\n FOR j := LINT#0 TO LINT#3000000000 DO\n END_FOR;\nEND_FOR;".into()),
+        ("while-empty-body", "WHILE TRUE DO\nEND_WHILE;".into()),
+        ("while-one-statement", "WHILE n >= LINT#0 DO\n n := LINT#1;\nEND_WHILE;".into()),
+        ("repeat-empty-body", "REPEAT\nUNTIL FALSE END_REPEAT;".into()),
+        ("repeat-continue", "REPEAT\n CONTINUE;\nUNTIL FALSE END_REPEAT;".into()),
+        ("for-empty-body-in-function", "n := Spin(LINT#9000000000000000000);".into()),
+        ("for-empty-body-in-fb", "fb(hi := LINT#9000000000000000000);".into()),
+        ("jmp-endless", "again: n := n + LINT#0;\nJMP again;".into()),
+    ];
+    let (shard, nshards) = (sh.args.shard as usize, sh.args.nshards as usize);
+    for (k, (name, body)) in loops.iter().enumerate() {
+        if k % nshards != shard {
+            continue;
+        }
+        let text = format!(
+            "FUNCTION Spin : LINT\nVAR_INPUT hi : LINT; END_VAR\nVAR k : LINT; END_VAR\nFOR k := LINT#0 TO hi DO\nEND_FOR;\nSpin := k;\nEND_FUNCTION\nFUNCTION_BLOCK Spinner\nVAR_INPUT hi : LINT; END_VAR\nVAR k : LINT; END_VAR\nFOR k := LINT#0 TO hi DO\nEND_FOR;\nEND_FUNCTION_BLOCK\nPROGRAM Main\nVAR i : LINT; j : LINT; n : LINT; fb : Spinner; END_VAR\n{body}\nEND_PROGRAM\n"
+        );
+        let case = json!({"label": format!("budget:{name}"), "features": "budget", "text": text, "trace": []});
+        if !sh.begin("budget-cell", &case) {
+            continue;
+        }
+        let (tx, rx) = std::sync::mpsc::channel();
+        let t2 = text.clone();
+        let spawned = std::thread::Builder::new().stack_size(STACK).spawn(move || {
+            let r = catch(move || -> Result<(String, usize), String> {
+                let mut h = trust_runtime::harness::TestHarness::from_source(&t2).map_err(|e| e.to_string())?;
+                h.runtime_mut().set_execution_deadline(Some(std::time::Instant::now() + std::time::Duration::from_millis(300)));
+                let r = h.cycle();
+                Ok((format!("{:?}", r.errors), h.runtime().storage().frames().len()))
+            });
+            let _ = tx.send(r);
+        });
+        if spawned.is_err() {
+            sh.inconclusive("budget cell: thread spawn failed");
+            sh.end();
+            continue;
+        }
+        match rx.recv_timeout(std::time::Duration::from_secs(20)) {
+            Err(_) => {
+                sh.violation(format!("non-termination|budget-not-enforced|{name}"), format!("a cycle with an execution budget of 300 ms was still running after 20 s [{name}]"), case.clone());
+                sh.end();
+                return; // the stuck thread keeps a core busy: stop here
+            }
+            Ok(Err(p)) => sh.violation(format!("panic|{}", panic_sig(&p)), format!("{p} [budget:{name}]"), case.clone()),
+            Ok(Ok(Err(e))) => {
+                sh.count("budget_cells_rejected_by_compiler", 1);
+                sh.note(format!("budget cell {name} rejected: {}", e.lines().next().unwrap_or("")));
+            }
+            Ok(Ok(Ok((errs, frames)))) => {
+                sh.count("budget_cells_returned", 1);
+                if errs.contains("ExecutionTimeout") {
+                    sh.count("budget_cells_ended_by_the_budget", 1);
+                } else if errs != "[]" {
+                    sh.violation(format!("budget|unexpected-error|{name}"), format!("the cycle ended with {errs}"), case.clone());
+                }
+                if frames != 0 {
+                    sh.violation(format!("frames-left|budget|{name}"), format!("{frames} call frame(s) left after the cycle ended with {errs}"), case.clone());
+                }
+                sh.nontrivial(&("budget", name));
+            }
+        }
+        sh.end();
+    }
 }
 
 #[allow(clippy::too_many_arguments)]
